@@ -33,9 +33,11 @@ impl<'buf, IO: Io> Connection<'_, 'buf, IO> {
         self.session.runtime.require_packet_size(packet.len())?;
         // A cancelled operation may have left a packet half-written: DISCONNECT must not
         // start in the middle of it.
-        self.finish_in_progress().await?;
-        let result = match write_all(&mut self.io, packet).await {
-            Ok(()) => self.io.flush().await.map_err(Error::Transport),
+        let result = match self.finish_in_progress().await {
+            Ok(()) => match write_all(&mut self.io, packet).await {
+                Ok(()) => self.io.flush().await.map_err(Error::Transport),
+                Err(err) => Err(err),
+            },
             Err(err) => Err(err),
         };
         // The transport is finished after a DISCONNECT regardless of the write outcome.
